@@ -10,6 +10,11 @@ def intersect_lines(p0, q0, p1, q1):
     See also:
         https://math.stackexchange.com/a/271366/640314
     """
+    vg.shape.check(locals(), "p0", (3,))
+    vg.shape.check(locals(), "q0", (3,))
+    vg.shape.check(locals(), "p1", (3,))
+    vg.shape.check(locals(), "q1", (3,))
+
     e = p0 - q0  # direction of line 0
     f = p1 - q1  # direction of line 1
 
@@ -50,6 +55,11 @@ def intersect_2d_lines(p0, q0, p1, q1):
     Intersect two lines: (p0, q0) and (p1, q1). Each should be a 2D
     point.
     """
+    vg.shape.check(locals(), "p0", (2,))
+    vg.shape.check(locals(), "q0", (2,))
+    vg.shape.check(locals(), "p1", (2,))
+    vg.shape.check(locals(), "q1", (2,))
+
     # Adapted from http://stackoverflow.com/a/26416320/893113
     dy = q0[1] - p0[1]
     dx = q0[0] - p0[0]
